@@ -544,7 +544,10 @@ static std::string printable(const std::string& s, size_t maxn)
 static int NB(bool thorough) { return thorough ? 16 : 8; }
 static int INST(bool thorough) { return thorough ? 6 : 1; }
 
-static bool buildSeed(const SeedKind& k, uint64_t seed, long fileIdx, bool thorough, std::string& text)
+// ndimOut: the default space dimension under which the seed object was built. The library's default space is process-wide
+// state that an object does not carry (e.g. DbLine::getLineLength fills a SpacePoint of the DEFAULT space with the
+// coordinates of the Db): the mutants are loaded under the space the valid file was written under, as a user would.
+static bool buildSeed(const SeedKind& k, uint64_t seed, long fileIdx, bool thorough, std::string& text, int* ndimOut = nullptr)
 {
   ChildOutcome o = runChild(
     [&](int wfd) {
@@ -552,10 +555,11 @@ static bool buildSeed(const SeedKind& k, uint64_t seed, long fileIdx, bool thoro
       bool ok = false;
       try { ok = k.makeSeed(r, thorough); }
       catch (...) { ok = false; }
-      writeAll(wfd, ok ? "ok" : "no");
+      writeAll(wfd, ok ? fmt("ok %d", getDefaultSpaceDimension()) : std::string("no"));
     },
     60., 300., "seed.err");
-  if (o.kind != ChildOutcome::OK || o.payload != "ok") return false;
+  if (o.kind != ChildOutcome::OK || o.payload.compare(0, 2, "ok") != 0) return false;
+  if (ndimOut != nullptr) *ndimOut = atoi(o.payload.c_str() + 2);
   text = readFile("seed.bin");
   return !text.empty();
 }
@@ -583,7 +587,9 @@ static void run_case(Rng&, Ctx& c)
   // mutant set of a tier is therefore the same in every run; VERIF_SEED is only recorded. (A fault enumeration whose keys
   // moved with the seed could never be matched against a list of known findings.)
   const uint64_t genSeed = 20261002ULL + 7919ULL * (uint64_t)inst;
-  if (!buildSeed(kind, genSeed, fileKey, th, T)) { c.skip("no-seed-file:" + kind.name); return; }
+  int seedNdim = 0;
+  if (!buildSeed(kind, genSeed, fileKey, th, T, &seedNdim)) { c.skip("no-seed-file:" + kind.name); return; }
+  if (seedNdim >= 1 && seedNdim <= 3) setSpace(seedNdim);
   // a second seed file (another kind) for the splices
   {
     size_t jk = (ik + 7) % kinds.size();
@@ -647,8 +653,9 @@ static void run_case(Rng&, Ctx& c)
     writeFile("m.bin", mu.bytes);
     ChildOutcome o;
     // Time-outs. Only CPU TIME decides (it does not depend on the machine load): a first limit of 5 s keeps the run
-    // cheap; a mutant that exhausts it is run again with 20 s. Exhausting 20 s of CPU on a file of a few hundred KiB at
-    // most is a hang; finishing between 5 and 20 s is slow but not a hang (the second outcome is the one classified).
+    // cheap; a mutant that exhausts it is run again with 60 s. Exhausting 60 s of CPU on a file of a few hundred KiB at
+    // most is a hang; finishing between 5 and 60 s is slow but not a hang (the second outcome is the one classified).
+    // The wide gap keeps the verdict of the long loops (counts of 10^6 .. 2^31 read from the file) away from the limit.
     // The wall-clock watchdog (240 s) only protects the run: a mutant it had to kill twice is a counted skip.
     bool watchdogSkip = false;
     for (int attempt = 0; attempt < 2; attempt++)
@@ -658,9 +665,9 @@ static void run_case(Rng&, Ctx& c)
       if (o.cpuLimitHit)
       {
         c.probe("cpu-5s-exhausted");
-        o = runChild([&](int wfd) { loadInChild(kind, "m.bin", wfd); }, 20., 600., "child.err");
+        o = runChild([&](int wfd) { loadInChild(kind, "m.bin", wfd); }, 60., 900., "child.err");
         if (o.kind == ChildOutcome::TIMEOUT && !o.cpuLimitHit) watchdogSkip = true;
-        else if (o.kind != ChildOutcome::TIMEOUT) c.probe("slow-5-to-20s");
+        else if (o.kind != ChildOutcome::TIMEOUT) c.probe("slow-5-to-60s");
         break;
       }
       c.probe("timeout-rerun");
@@ -692,7 +699,7 @@ static void run_case(Rng&, Ctx& c)
     if (o.kind == ChildOutcome::TIMEOUT)
     {
       c.probe("timed-out");
-      L.fail("loader-survives", base + "hang", "20 s of CPU time exhausted (after a first run that exhausted 5 s) | " + det);
+      L.fail("loader-survives", base + "hang", "60 s of CPU time exhausted (after a first run that exhausted 5 s) | " + det);
       continue;
     }
     if (o.kind == ChildOutcome::DIED)
